@@ -91,8 +91,24 @@ def shard_e1(col, shard, ngrammars, ninputs):
         g, texts = cut_scope_grammar(rng)
         col.count('family.cut-scope')
         for t in texts:
-            cases.append(R.Case(g, t))
+            cases.append(R.Case(g, t, tag='cut-scope'))
     R.differential(col, mr, cases, 'E1cut')
+    # generated parsers implement the same scopes with their own runtime (ctx.group / ctx.optional / ChoiceContext): success and
+    # failure must agree with the model on the cut-scope family and on a sample of the rest
+    import tatsu  # noqa: F401
+    for c in cases:
+        if c.tag != 'cut-scope' and rng.random() > 0.1:
+            continue
+        m = R.compile_grammar(c.g)
+        if isinstance(m, tuple):
+            continue
+        io, _ = R.impl_outcome(c, m)
+        go, _ = R.gen_outcome(c)
+        col.count('genparser.compared')
+        if isinstance(go, tuple) and go and io[0] in ('ok', 'fail') and go[0] in ('ok', 'fail', 'exc') and go[0] != io[0]:
+            col.violation(f'oracle:generated-parser-cut-scope:{io[0]}-vs-{go[0]}',
+                          'the generated parser and the model disagree on success / failure of a grammar with cuts',
+                          {'oracle': 'generated parser vs model.parse (cut scopes)', 'case': c.describe(), 'model.parse': io, 'generated': go})
     if cases:
         col.sample(cases[len(cases) // 3].describe())
 
@@ -208,8 +224,10 @@ def main():
             vlib.run_sharded(chk, shard_docs, 28, extra=(80,))
         chk.obligation('E1cut: cut-dense grammars, implementation vs model', 'correspondence',
                        not any(v['signature'].startswith('E1cut') for v in chk.violations))
+        chk.obligation('generated parsers commit in the same scopes as the model (success / failure)', 'oracle',
+                       not any(v['signature'].startswith('oracle:generated-parser') for v in chk.violations))
         chk.obligation('docs/syntax.rst cut-scope equivalences (implementation only)', 'oracle',
-                       not any(v['signature'].startswith('oracle:') for v in chk.violations))
+                       not any(v['signature'].startswith('oracle:docs') for v in chk.violations))
     return chk.finish()
 
 
